@@ -638,7 +638,7 @@ Proof.
     + assert (Kn : k_now (trk_ev k FnFail) = now s).
       { destruct HTL as (K1 & K2 & _). unfold trk_ev. rewrite K2, Hd. exact K1. }
       destruct (ev_fnfail T s (trk_ev k FnFail) x HM Hd Kn HR) as (x' & A & B). exists x'. auto.
-    + unfold step. rewrite Hd. cbn. eexists. split; [reflexivity|]. discriminate.
+    + destruct HTL as (_ & K2 & _). unfold step, trk_ev. rewrite Hd, K2, Hd. cbn. eexists. split; [reflexivity|]. discriminate.
 Qed.
 
 Lemma init_RL T : RL T (init T) m8_0.
